@@ -8,11 +8,11 @@ from sim.env import VERIF_DIR, repo_src
 
 # runs per tier; sized so that quick is about a minute on 16 processes
 TIERS = {
-    "C14": {"quick": 12000, "thorough": 150000},
-    "C15": {"quick": 1400, "thorough": 16000},
-    "C16": {"quick": 1100, "thorough": 12000},
+    "C14": {"quick": 12000, "thorough": 400000},
+    "C15": {"quick": 1400, "thorough": 40000},
+    "C16": {"quick": 1100, "thorough": 24000},
 }
-WALL_CAP = {"quick": 150, "thorough": 1500}
+WALL_CAP = {"quick": 150, "thorough": 2400}
 MIN_FRACTION = 0.25  # fewer completed runs than this fraction of the plan = harness error, not a pass
 MAX_REPORTED = 4
 
